@@ -9,12 +9,13 @@ Domain restrictions (each one avoids a behaviour that belongs to another propert
 statement of C05 does not settle; they are repeated in the evidence `assumptions`):
  * names are drawn so that no component/binding name is a substring of another one (textual
    substitution of reference spellings is C03/C10's subject);
- * every reference appears exactly once in a component's argument string;
+ * a reference may appear twice in an argument string and same-stage in-loop references may be spelled
+   relatively, but only in non-replicated, non-aggregating components (expansion of replicas is C03's subject);
  * loop-carried producers sit in a body stage <= the consumer's body stage; a replicated producer is only
    carried into the replicated head of the same chain (same replica count, replica r <- replica r);
  * replication inside the loop is limited to the classic  replicate -> [follower] -> aggregate chain;
  * `:loopref` / `:loopoutput` are only used by consumers outside the loop;
- * one DoWhile document per package.
+ * at most two DoWhile documents per package (the second one is a fixed two-component loop).
 """
 from __future__ import annotations
 
@@ -26,6 +27,7 @@ BODY_NAMES = ["add", "gen", "echo", "pick", "x10y", "s9t", "it", "nine", "calc-v
 COND_NAMES = ["stop", "cond", "chk", "decide", "q9q"]
 BIND_NAMES = ["number", "other", "dep", "feed", "inp", "carry", "k9k", "val-u"]
 OUTER_SRC = ["srca", "srcb", "srcc"]
+TWIN_WORK = "secondjob"
 CONS_NAMES = ["report", "collect", "tail", "view", "last1x", "agg-all", "obs"]
 PATH_METHODS = ["ref", "copy", "link"]
 
@@ -57,7 +59,7 @@ def parse_ref(s: str, default_stage: Optional[int] = None) -> Tuple[Optional[int
     return (st, m.group(2), m.group(3), m.group(4))
 
 
-def draw_shape(r, idx: int, K: int, allow_repl_carried: bool = True) -> Dict[str, Any]:
+def draw_shape(r, idx: int, K: int, allow_repl_carried: bool = True, allow_extras: bool = True) -> Dict[str, Any]:
     """Draw one DoWhile package shape.  `idx` steers a few boundary choices so that a small number
     of shapes already covers import stages 0..2, body offsets, replication and every reference method."""
     while True:
@@ -70,8 +72,16 @@ def draw_shape(r, idx: int, K: int, allow_repl_carried: bool = True) -> Dict[str
         bnames = r.sample(BIND_NAMES, nb)
         n_cons = r.randint(2, 4)
         cnames = r.sample(CONS_NAMES, n_cons)
-        if _substring_free(names + [cond_name] + bnames + cnames + OUTER_SRC + ["filler"]):
+        if _substring_free(names + [cond_name] + bnames + cnames + OUTER_SRC + ["filler", TWIN_WORK]):
             break
+    # round-3 extras (not used by C07, whose random stream must stay as it was):
+    #  combo  - one argument string names a loop-carried binding AND, in relative spelling, the in-loop producer the
+    #           binding is carried from (`number:output fake_add:output` with loopBindings number: fake_add:output)
+    #  twin   - a second DoWhile document in the package whose condition component has the SAME name as this
+    #           loop's condition component, in a different stage; it iterates half as often
+    #  rel/dup - relative spellings of same-stage in-loop references; one reference repeated in an argument string
+    combo = allow_extras and idx % 8 == 3
+    twin_wanted = allow_extras and idx % 8 == 7
 
     body: List[Dict[str, Any]] = []
     # -- replication chain  A(replicate N) -> [M follower] -> G(aggregate)
@@ -100,6 +110,11 @@ def draw_shape(r, idx: int, K: int, allow_repl_carried: bool = True) -> Dict[str
         body.append({"name": n, "off": r.randint(0, 1), "replicate": None, "aggregate": False, "intra": []})
     # the condition producer is an ordinary, non replicated body component
     body.append({"name": cond_name, "off": r.randint(0, 1), "replicate": None, "aggregate": False, "intra": []})
+    if combo:
+        same_off = r.randint(0, 1)
+        for c in body:
+            if c.get("replicate") is None and c.get("follows") is None and not c["aggregate"]:
+                c["off"] = same_off
 
     def replicated(c):
         return c.get("replicate") is not None or c.get("follows") is not None
@@ -113,6 +128,8 @@ def draw_shape(r, idx: int, K: int, allow_repl_carried: bool = True) -> Dict[str
             if p["off"] <= c["off"] and r.random() < 0.35:
                 f = r.choice([None, None, "data.txt"])
                 c["intra"].append({"to": p["name"], "method": r.choice(PATH_METHODS + ["output"]), "file": f})
+                if allow_extras and p["off"] == c["off"] and r.random() < 0.4:
+                    c["intra"][-1]["spelling"] = "rel"
 
     # -- bindings: invariant or loop-carried
     repl_carried = allow_repl_carried and with_repl and idx % 8 == 5
@@ -135,6 +152,15 @@ def draw_shape(r, idx: int, K: int, allow_repl_carried: bool = True) -> Dict[str
             users = [body[0]]
             p = r.choice([c for c in body if replicated(c)])
             loop = {"comp": p["name"], "off": p["off"], "file": r.choice([None, None, "loop.out"]), "replicated": True}
+        elif combo and bi == 0 and len([c for c in body if not replicated(c) and not c["aggregate"]]) >= 2:
+            elig = [c for c in body if not replicated(c) and not c["aggregate"]]
+            ui = r.randint(1, len(elig) - 1)
+            u, p = elig[ui], r.choice(elig[:ui])
+            users = [u]
+            init_file = None
+            loop = {"comp": p["name"], "off": p["off"], "file": None, "combo": True}
+            u["intra"] = [x for x in u["intra"] if x["to"] != p["name"]]
+            u["intra"].insert(0, {"to": p["name"], "method": method, "file": None, "spelling": "rel"})
         elif carried:
             max_off = min(u["off"] for u in users)
             prods = [c for c in body if not replicated(c) and c["off"] <= max_off]
@@ -145,11 +171,18 @@ def draw_shape(r, idx: int, K: int, allow_repl_carried: bool = True) -> Dict[str
         bindings[b] = {"type": method, "init": {"stage": src_stage, "name": src, "file": init_file}, "loop": loop}
         for u in users:
             use_file = None
-            if init_file is None and (loop is None or loop["file"] is None) and r.random() < 0.3:
+            if loop is not None and loop.get("combo"):
+                pass
+            elif init_file is None and (loop is None or loop["file"] is None) and r.random() < 0.3:
                 use_file = "part.bin"
             u.setdefault("binds", []).append({"binding": b, "file": use_file})
     for c in body:
         c.setdefault("binds", [])
+    if allow_extras:
+        for c in body:
+            n_tok = len(c["binds"]) + len(c["intra"])
+            if not replicated(c) and not c["aggregate"] and n_tok and r.random() < 0.15:
+                c["dup"] = r.randrange(n_tok)       # this reference token appears twice in the argument string
 
     cond = {"comp": cond_name, "file": r.choice([None, None, "iteration.next"]),
             "spelling": r.choice(["abs", "rel"])}
@@ -172,7 +205,13 @@ def draw_shape(r, idx: int, K: int, allow_repl_carried: bool = True) -> Dict[str
                           "aggregate": aggregate})
 
     max_stage = max([S + c["off"] for c in body] + [c["stage"] for c in consumers])
-    return {"idx": idx, "S": S, "K": K, "body": body, "bindings": bindings, "cond": cond,
+    twin = None
+    if twin_wanted:
+        cond_stage = S + [c for c in body if c["name"] == cond_name][0]["off"]
+        choices = [t for t in range(0, max_stage + 1) if t != cond_stage] or [max_stage + 1]
+        twin = {"stage": r.choice(choices), "cond": cond_name, "work": TWIN_WORK, "name": "lp2"}
+        max_stage = max(max_stage, twin["stage"])
+    return {"twin": twin, "combo": combo, "idx": idx, "S": S, "K": K, "body": body, "bindings": bindings, "cond": cond,
             "consumers": consumers, "max_stage": max_stage, "dw_name": r.choice(["loop-it", "dw", "imp-one"]),
             "repl_via_var": repl_via_var, "repl_carried": repl_carried}
 
@@ -181,6 +220,27 @@ def draw_shape(r, idx: int, K: int, allow_repl_carried: bool = True) -> Dict[str
 
 def _yaml_quote(s: str) -> str:
     return '"' + s.replace('"', '\\"') + '"'
+
+
+def spelled_intra(by_name, it) -> str:
+    """how an in-loop reference is written in the document (absolute within the loop, or relative)"""
+    if it.get("spelling") == "rel":
+        return ref_str(None, it["to"], it["file"], it["method"])
+    return ref_str(by_name[it["to"]]["off"], it["to"], it["file"], it["method"])
+
+
+def render_twin(shape: Dict[str, Any]) -> Optional[str]:
+    """twin.yaml: the second DoWhile document (its condition component is a namesake of the main loop's)"""
+    tw = shape.get("twin")
+    if not tw:
+        return None
+    return "\n".join([
+        "type: DoWhile", "inputBindings: {}", "condition: %s" % _yaml_quote(ref_str(None, tw["cond"], None, "output")),
+        "components:",
+        "- name: %s" % tw["cond"], "  command:", "    executable: echo", "    arguments: twin-%(loopIteration)s",
+        "- name: %s" % tw["work"], "  command:", "    executable: echo",
+        "    arguments: %s" % _yaml_quote(ref_str(None, tw["cond"], None, "ref")),
+        "  references: [%s]" % _yaml_quote(ref_str(None, tw["cond"], None, "ref"))]) + "\n"
 
 
 def render(shape: Dict[str, Any]) -> Tuple[str, str]:
@@ -209,8 +269,9 @@ def render(shape: Dict[str, Any]) -> Tuple[str, str]:
         for bd in comp["binds"]:
             refs.append(ref_str(None, bd["binding"], bd["file"], shape["bindings"][bd["binding"]]["type"]))
         for it in comp["intra"]:
-            refs.append(ref_str(by_name[it["to"]]["off"], it["to"], it["file"], it["method"]))
-        args = " ".join(["-v"] + refs + ["--tag=%(loopIteration)s"])
+            refs.append(spelled_intra(by_name, it))
+        arg_refs = refs + ([refs[comp["dup"]]] if comp.get("dup") is not None else [])
+        args = " ".join(["-v"] + arg_refs + ["--tag=%(loopIteration)s"])
         dw += ["- name: %s" % comp["name"], "  stage: %d" % comp["off"], "  command:", "    executable: echo",
                "    arguments: %s" % _yaml_quote(args)]
         if comp["aggregate"]:
@@ -241,6 +302,9 @@ def render(shape: Dict[str, Any]) -> Tuple[str, str]:
     for b, d in shape["bindings"].items():
         i = d["init"]
         main.append("    %s: %s" % (b, _yaml_quote(ref_str(i["stage"], i["name"], i["file"], d["type"]))))
+    if shape.get("twin"):
+        main += ["- name: %s" % shape["twin"]["name"], "  stage: %d" % shape["twin"]["stage"],
+                 "  $import: twin.yaml", "  bindings: {}"]
     for cons in shape["consumers"]:
         t = by_name[cons["target"]]
         rs = ref_str(S + t["off"], cons["target"], cons["file"], cons["method"])
@@ -300,8 +364,30 @@ class Truth:
                 out.append("stage%d.%s" % (cons["stage"], cons["name"]))
         return out
 
+    # -- second loop (namesake condition component in another stage); it gets an iteration after every even k >= 2
+    def twin_iters(self, k: int) -> int:
+        return k // 2
+
+    def twin_nodes(self, k: int) -> List[str]:
+        tw = self.shape.get("twin")
+        if not tw:
+            return []
+        return ["stage%d.%d#%s" % (tw["stage"], i, n) for i in range(self.twin_iters(k) + 1) for n in (tw["cond"], tw["work"])]
+
+    def arg_plan(self, name: str, it: int) -> List[Tuple[str, str]]:
+        """For a non-replicated, non-aggregating component: [(reference as spelled in the document's argument
+        string, the reference it must have become in instance `it`)] in textual order (a repeated token last)."""
+        c = self.by_name[name]
+        spelled = [ref_str(None, bd["binding"], bd["file"], self.shape["bindings"][bd["binding"]]["type"]) for bd in c["binds"]]
+        spelled += [spelled_intra(self.by_name, x) for x in c["intra"]]
+        expect = [ref_str(*x) for x in self.instance_inputs(name, it, "")]
+        plan = list(zip(spelled, expect))
+        if c.get("dup") is not None:
+            plan.append(plan[c["dup"]])
+        return plan
+
     def nodes(self, k: int) -> List[str]:
-        out = list(self.outer_nodes())
+        out = list(self.outer_nodes()) + self.twin_nodes(k)
         for c in self.body:
             for it in range(0, k + 1):
                 for sfx in self.suffixes(c["name"]):
